@@ -396,6 +396,12 @@ O(id='BOOLEAN_roundtrip', props=['C01', 'C02', 'C13'], kind='width', entry='h_BO
 O(id='BOOLEAN_decode_ber.b8', props=['C03', 'C04', 'C05'], kind='bounded', entry='h_BOOLEAN_decode_ber', functions=['BOOLEAN_decode_ber'],
   unwind=18, bound='every input of at most 8 octets', min_props=50, timeout=600, **BO)
 
+# ---------------------------------------------------------------- generic SET OF container
+O(id='asn_set_ops.n6', props=['C14', 'C15', 'C04'], kind='bounded', tier='experimental', entry='h_asn_set_ops', harness='harness/h_set_of.c', units=[SK + 'asn_SET_OF.c'],
+  functions=['asn_set_add', 'asn_set_del', 'asn_set_empty'], fp_restrict=[(r'free\)$', ['elem_free'])], unwind=10,
+  cbmc=['--malloc-may-fail', '--malloc-fail-null', '--memory-leak-check'], bound='every sequence of at most 6 add/delete operations, every allocation may fail',
+  min_props=40, timeout=600)
+
 UNVERIFIED = {
  'C07': ['asn_encode_to_buffer / asn_encode_to_new_buffer / uper_encode_to_buffer / uper_encode_to_new_buffer with a UPER type encoder: obligations exist (tier experimental) but do not discharge (symbolic-length memcpy of the 32-octet bit scratch space runs out of memory); asn_encode with UPER is covered',
          'every constructed / generated type encoder is assumed to follow the operation-slot convention enumerated by the stub encoder',
